@@ -205,7 +205,7 @@ func ruleR25_1(c *Check) {
 				return ok && be.Op == token.EQL && w.fieldOf(be.X) == w.Field("badger.Stream.readTs")
 			}, Val: false})
 		}
-		r.Exists(n == 1, orc, "run timestamp assigned in Orchestrate", nil, "Stream."+fld.Name()+" is not assigned in Orchestrate")
+		r.Exists(n >= 1, orc, "run timestamp assigned in Orchestrate", nil, "Stream."+fld.Name()+" is not assigned in Orchestrate")
 		// the producer must not release the read mark a second time
 		okDone := false
 		for _, d := range p.Sites(selStore(w.Field("badger.Txn.doneRead"))) {
@@ -806,7 +806,7 @@ func ruleR26_3(c *Check) {
 	srt := selCallName(w, "badger.levelHandler.sortTables")
 	sd := selCallName(w, "badger.DB.syncDir")
 	val := selCallName(w, "badger.levelsController.validate")
-	r.Exists(len(f.Sites(done)) == 1, f, "writers are finished", nil, "Flush no longer calls Done on its writers")
+	r.Exists(len(f.Sites(done)) >= 1, f, "writers are finished", nil, "Flush no longer calls Done on its writers")
 	r.NeverAfterAll(f, "no writer finished after the tables were awaited", fin, 0, done, 0)
 	r.DomAll(f, "levels sorted after all tables were written", srt, 0, fin, 0)
 	r.DomAll(f, "directories synced after sorting", sd, 0, fin, 0)
